@@ -182,10 +182,12 @@ class IncrementalExecutor(Executor[DeliveryGroupMap]):
     groups: list[DeliveryGroup]
     tasks: list[ExecutionGroup]
     streams: list[ItemStream]
+    aborted: bool  # whether the work produced by this executor has been aborted
 
     def __init__(self, *args: Any, **kwargs: Any) -> None:
         super().__init__(*args, **kwargs)
         self.defer_usage_set = None
+        self.aborted = False
         self.groups = []
         self.tasks = []
         self.streams = []
@@ -219,6 +221,7 @@ class IncrementalExecutor(Executor[DeliveryGroupMap]):
         asynchronous part of the cleanup, or None when the whole cleanup could
         be run synchronously.
         """
+        self.aborted = True
         awaitables: list[Any] = []
         is_awaitable = self.is_awaitable
         for task in self.tasks:
@@ -636,6 +639,13 @@ class IncrementalExecutor(Executor[DeliveryGroupMap]):
             item_type,
             is_async,
         )
+
+        if self.aborted or self.collected_errors.has_nulled_position(path):
+            # The list is completed by a field that has been abandoned (e.g.
+            # settled in the background after a sibling failed synchronously):
+            # the stream will never be delivered, and nobody else could abort it.
+            self.settle_abort_result(queue.abort())
+            return True
 
         item_stream = ItemStream(path, stream_usage.label, queue, index)
 
